@@ -223,3 +223,19 @@ def written_value(body, site):
 def N(t):
     """String of a term with let-bound names kept (identity of a single computed value)."""
     return tstr(t)
+
+
+def deref_writes(body):
+    """Writes through a reference held in a local: [(site, target string, value string)],
+    e.g. `*v.index_mut(i) = x` gives target `Vec::index_mut(v, i)`."""
+    out = []
+    for s in body.assigns(lambda pl: bool(pl['p']) and pl['p'][0] == '*'):
+        pl = s.data['place'] if s.kind == 'assign' else s.data['dest']
+        base = body.local_term(pl['l'])
+        rest = {'l': pl['l'], 'p': pl['p'][1:], 'ty': pl['ty']}
+        tgt = S(base)
+        for p in rest['p']:
+            if isinstance(p, dict) and 'f' in p:
+                tgt += '.' + p['f']
+        out.append((s, tgt, written_value(body, s)))
+    return out
